@@ -590,6 +590,9 @@ func runC07(p *Program, r *Report) {
 	}
 	r.Rule("R07h", "MERGE-WALK-SORTED: a list parameter that the cached-proof update walks with a forward-only cursor against a loop counter (one side of a merge) is sorted on its way from the exported entry")
 	checkMergeWalkSorted(p, r, "R07h", "(*Proof).Update")
+	if e := p.Func("(*Proof).Update"); e != nil {
+		checkThreadedState(p, r, "R07i", []*ssa.Function{e}, 2)
+	}
 	r.Rule("R07g", "DISCARDED-ERRORS-EXCLUDED: in the cached-proof update every discarded error of a position function is excluded by a dominating guard (or reviewed lemma) covering EVERY failing return of the callee - a failing call hands back position 0, with which the held leaf would silently be paired")
 	scope := p.StaticReach(upd)
 	scope[upd] = true
